@@ -62,10 +62,27 @@ AXIOMS = [
 ]
 
 
+def _has_ite(t, depth=0):
+    if depth > 6:
+        return False
+    if z3.is_app(t) and t.decl().kind() == z3.Z3_OP_ITE:
+        return True
+    if z3.is_store(t):
+        return any(_has_ite(c, depth + 1) for c in t.children())
+    return False
+
+
 class Hp:
     """the graph part of a symbolic state"""
 
     def __init__(self, st):
+        # name non-trivial heap terms (if-then-else of arrays) by a fresh constant so that they can occur in quantifier patterns
+        for (field, kind, part) in (("_children", "refset", ""), ("_parents", "refset", ""), ("_parameters", "refset", ""), ("_value", "val", ""), ("_func", "funh", ""), ("_stale", "bool", "")):
+            t = st.h(field, kind, part)
+            if _has_ite(t):
+                c = fresh("H_" + field.strip("_"), t.sort())
+                core.DEFS.append((c.decl().name(), c == t))       # definitional equation: attached to every VC that mentions c (cone of influence)
+                st.set_h(field, kind, part, c)
         self.stale, self.frozen = st.h("_stale", "bool"), st.h("_frozen", "bool")
         self.child, self.parent, self.params = st.h("_children", "refset"), st.h("_parents", "refset"), st.h("_parameters", "refset")
         self.val, self.func, self.evals = st.h("_value", "val"), st.h("_func", "funh"), st.h("#evals", "int")
@@ -262,7 +279,7 @@ def u_freeze(root):
     c_mark_for_update(eng)
     for cls in ("Function", "Parameter"):
         preserves(eng, cls, "freeze", extra_post=lambda vw, a, b: [("frozen afterwards", b.frozen[vw.self.e]), ("values and everything else untouched", z3.And(same(a, b, "stale", "child", "parent", "params", "func", "val", "evals")))])
-        preserves(eng, cls, "unfreeze", extra_post=lambda vw, a, b: [("not frozen afterwards", z3.Not(b.frozen[vw.self.e])), ("recomputed on next read", b.stale[vw.self.e]), ("values untouched", same(a, b, "val", "child", "parent", "params", "func", "evals"))])
+        preserves(eng, cls, "unfreeze", extra_post=lambda vw, a, b: [("not frozen afterwards", z3.Not(b.frozen[vw.self.e])), ("a node defined by its inputs is recomputed on the next read", z3.Or(isleaf(vw.self.e), b.stale[vw.self.e])), ("values untouched", same(a, b, "val", "child", "parent", "params", "func", "evals"))])
     return eng
 
 
@@ -405,6 +422,251 @@ def u_value_getter(root):
         eng.verify(cls, "value", "getter", contract=c)
     return eng
 
+
+# ---------------------------------------------------------------- structural operations
+def edge_add(h, P_, N_):
+    return z3.Store(h.child, P_, z3.Store(h.child[P_], N_, z3.BoolVal(True)))
+
+
+def c_add_parent(eng):
+    c = mk(eng, NODE, "add_parent")
+    c.raises = lambda vw: ("ValueError", z3.Not(Hp(vw.pre).child[vw.args["node"].e][vw.self.e]))
+    c.modifies = [("_parents", "refset", "")]
+    c.ensures.append(lambda vw: [Hp(vw.post).parent == z3.Store(Hp(vw.pre).parent, vw.self.e, z3.Store(Hp(vw.pre).parent[vw.self.e], vw.args["node"].e, z3.BoolVal(True)))])
+    return c
+
+
+def c_remove_parent(eng):
+    c = mk(eng, NODE, "remove_parent")
+    c.raises = lambda vw: ("ValueError", Hp(vw.pre).child[vw.args["node"].e][vw.self.e])
+    c.requires.append(lambda vw: Hp(vw.pre).parent[vw.self.e][vw.args["node"].e])        # else KeyError from set.remove (excluded by S at every call site)
+    c.modifies = [("_parents", "refset", "")]
+    c.ensures.append(lambda vw: [Hp(vw.post).parent == z3.Store(Hp(vw.pre).parent, vw.self.e, z3.Store(Hp(vw.pre).parent[vw.self.e], vw.args["node"].e, z3.BoolVal(False)))])
+    return c
+
+
+def struct_parts(h):
+    """what node-level structural operations re-establish (acyclicity is the job of Nexus.add* / NodeCycleChecker)"""
+    return [("S: edge symmetry", inv_S(h)), ("I: a stale node has only stale or frozen parents", inv_I(h)), ("J: every fresh non-leaf node caches its definition on the current values", inv_J(h)),
+            ("Sync: parameters are children", inv_Sync(h)), ("root stays stale and parentless", inv_root(h))]
+
+
+def InvNoA(h):
+    return z3.And(inv_S(h), inv_I(h), inv_J(h), inv_Sync(h), inv_root(h))
+
+
+def InvNoSync(h):
+    return z3.And(inv_S(h), inv_I(h), inv_J(h), inv_root(h))
+
+
+def structural(eng, cls, name, kind=None, init=None, req=(), post=None, tag=None):
+    c = Contract(cls, name, kind)
+    c.requires.append(lambda vw: z3.And(*tag_self(cls), InvNoA(Hp(vw.pre))))
+    if cls != "Function":
+        c.requires.append(lambda vw: Hp(vw.pre).params[vw.self.e] == EMPTY)       # only Function nodes have _parameters
+    c.requires += list(req)
+
+    def p_(vw):
+        a, b = Hp(vw.pre), Hp(vw.post)
+        out = post(vw, a, b) if post else []
+        if vw.flow != "raise":
+            out = out + struct_parts(b)
+        return out
+    c.ensures.append(p_)
+    eng.verify(cls, name, kind, init, contract=c, tag=tag)
+
+
+def node_arg(name, cls="ValueNode"):
+    return VRef(z3.Const(name, Ref), cls)
+
+
+def u_edges(root):
+    eng = mk_engine(root)
+    c_mark_for_update(eng)
+    c_notify_parents(eng)
+    nd = node_arg("node")
+    other = [lambda vw: z3.And(nd.e != NULL, z3.Not(isroot(nd.e)), nd.e != vw.self.e)]
+    # add_parent / remove_parent bodies (guards)
+    for cls in ("Function",):
+        c = Contract(cls, "add_parent")
+        c.ensures.append(lambda vw: [("rejected (ValueError) exactly when the node is not already a child of the new parent", z3.Not(Hp(vw.pre).child[nd.e][vw.self.e])), ("nothing changed", Hp(vw.post).parent == Hp(vw.pre).parent)] if vw.flow == "raise" else
+                         [("accepted only if the edge exists on the parent's side", Hp(vw.pre).child[nd.e][vw.self.e]), ("parent recorded", Hp(vw.post).parent == z3.Store(Hp(vw.pre).parent, vw.self.e, z3.Store(Hp(vw.pre).parent[vw.self.e], nd.e, z3.BoolVal(True))))])
+        eng.verify(cls, "add_parent", None, lambda e, st, me_: {"node": VRef(nd.e, NODE)}, contract=c)
+        c = Contract(cls, "remove_parent")
+        c.requires.append(lambda vw: Hp(vw.pre).parent[vw.self.e][nd.e])
+        c.ensures.append(lambda vw: [("rejected (ValueError) exactly when the parent still lists the node as a child", Hp(vw.pre).child[nd.e][vw.self.e]), ("nothing changed", Hp(vw.post).parent == Hp(vw.pre).parent)] if vw.flow == "raise" else
+                         [("accepted only after the parent dropped the child", z3.Not(Hp(vw.pre).child[nd.e][vw.self.e])), ("parent removed", Hp(vw.post).parent == z3.Store(Hp(vw.pre).parent, vw.self.e, z3.Store(Hp(vw.pre).parent[vw.self.e], nd.e, z3.BoolVal(False))))])
+        eng.verify(cls, "remove_parent", None, lambda e, st, me_: {"node": VRef(nd.e, NODE)}, contract=c)
+    c_add_parent(eng)
+    c_remove_parent(eng)
+    # add_child
+    for cls in ("Function", "RootNode", "Parameter"):
+        structural(eng, cls, "add_child", init=lambda e, st, me_: {"node": nd}, req=other,
+                   post=lambda vw, a, b: [("no exception for a node argument", z3.BoolVal(vw.flow != "raise")), ("edge added on both sides", z3.And(b.child == edge_add(a, vw.self.e, nd.e), b.parent[nd.e][vw.self.e])),
+                                          ("receiver told: Parameter, frozen or stale afterwards", done(b, vw.self.e)), ("values untouched", same(a, b, "val", "frozen", "func", "params", "evals"))])
+    # remove_child (for a Function: not one of its parameters)
+    for cls in ("Function", "RootNode"):
+        structural(eng, cls, "remove_child", init=lambda e, st, me_: {"node": nd}, req=other + [lambda vw: z3.And(Hp(vw.pre).child[vw.self.e][nd.e], z3.Not(Hp(vw.pre).params[vw.self.e][nd.e]))],
+                   post=lambda vw, a, b: [("no exception when the edge exists", z3.BoolVal(vw.flow != "raise")),
+                                          ("edge removed on both sides", z3.And(b.child == z3.Store(a.child, vw.self.e, z3.Store(a.child[vw.self.e], nd.e, z3.BoolVal(False))), z3.Not(b.parent[nd.e][vw.self.e]))),
+                                          ("receiver told", done(b, vw.self.e)), ("values untouched", same(a, b, "val", "frozen", "func", "params", "evals"))])
+    return eng
+
+
+def u_replace_child(root):
+    eng = mk_engine(root)
+    c_mark_for_update(eng)
+    c_add_parent(eng)
+    c_remove_parent(eng)
+    cur, new = node_arg("current_child"), node_arg("new_child")
+    req = [lambda vw: z3.And(cur.e != NULL, new.e != NULL, cur.e != new.e, new.e != vw.self.e, cur.e != vw.self.e, z3.Not(isroot(new.e)), z3.Not(isroot(cur.e)))]
+
+    def post(vw, a, b):
+        n = vw.self.e
+        if vw.flow == "raise":
+            return [("rejected (ValueError) exactly when current_child is not a child", z3.Not(a.child[n][cur.e])), ("rejected call changes nothing", same(a, b, "child", "parent", "params", "stale", "val", "frozen", "func"))]
+        moved = z3.Store(z3.Store(a.child[n], cur.e, z3.BoolVal(False)), new.e, z3.BoolVal(True))
+        return [("accepted only for an existing child", a.child[n][cur.e]), ("children: current replaced by new", b.child == z3.Store(a.child, n, moved)),
+                ("back edges moved", z3.And(b.parent[new.e][n], z3.Not(b.parent[cur.e][n]))),
+                ("parameters of a Function follow the replacement (other classes have none)", b.params[n] == z3.If(a.params[n][cur.e], z3.Store(z3.Store(a.params[n], cur.e, z3.BoolVal(False)), new.e, z3.BoolVal(True)), a.params[n])),
+                ("receiver told", done(b, n)), ("values untouched", same(a, b, "val", "frozen", "func", "evals"))]
+    for cls in ("Function", "Tuple", "RootNode"):
+        structural(eng, cls, "replace_child", init=lambda e, st, me_: {"current_child": cur, "new_child": new}, req=req, post=post)
+    return eng
+
+
+def c_replace_child(eng):
+    """replace_child as used by replace(): generic receiver (NodeBase body or Function override)"""
+    c = mk(eng, NODE, "replace_child")
+    c.requires.append(lambda vw: z3.And(InvNoA(Hp(vw.pre)), Hp(vw.pre).child[vw.self.e][vw.args["current_child"].e], vw.args["current_child"].e != vw.args["new_child"].e))
+    c.modifies = [("_children", "refset", ""), ("_parameters", "refset", ""), ("_parents", "refset", "", "all"), ("_stale", "bool", "", "all")]
+
+    def ens(vw):
+        a, b, n, cu, ne = Hp(vw.pre), Hp(vw.post), vw.self.e, vw.args["current_child"].e, vw.args["new_child"].e
+        moved = z3.Store(z3.Store(a.child[n], cu, z3.BoolVal(False)), ne, z3.BoolVal(True))
+        par = z3.Store(z3.Store(a.parent, ne, z3.Store(a.parent[ne], n, z3.BoolVal(True))), cu, z3.Store(z3.If(ne == cu, a.parent[cu], z3.Store(a.parent, ne, z3.Store(a.parent[ne], n, z3.BoolVal(True)))[cu]), n, z3.BoolVal(False)))
+        return [b.child == z3.Store(a.child, n, moved), b.parent == par, mono_stale(a, b), same(a, b, "val", "frozen", "func", "evals"), done(b, n), InvNoA(b),
+                z3.ForAll([x], z3.Implies(x != n, b.params[x] == a.params[x]))]
+    c.ensures.append(ens)
+    return c
+
+
+def u_replace(root):
+    eng = mk_engine(root)
+    c_replace_child(eng)
+    eng.loop_havoc = [("_stale", "bool", ""), ("_children", "refset", ""), ("_parents", "refset", ""), ("_parameters", "refset", "")]
+    oth = node_arg("other")
+
+    def inv(e, s):
+        a, b = Hp(s.locals["#entry0"]), Hp(s)
+        n, vis = s.locals["self"].e, s.locals["#vis0"]
+        return z3.And(InvNoA(b), mono_stale(a, b), same(a, b, "val", "frozen", "func", "evals"),
+                      z3.ForAll([P], z3.Implies(vis.has(P), z3.And(a.parent[n][P], z3.Not(b.child[P][n]), b.child[P][oth.e], done(b, P)))),
+                      z3.ForAll([P], z3.Implies(z3.And(a.parent[n][P], z3.Not(vis.has(P))), b.child[P][n])),
+                      z3.ForAll([P, N], z3.Implies(z3.And(N != n, N != oth.e), b.child[P][N] == a.child[P][N])),
+                      z3.ForAll([P], z3.Implies(z3.Not(a.parent[n][P]), z3.And(b.child[P][n] == a.child[P][n], b.child[P][oth.e] == a.child[P][oth.e]))))
+    for cls in ("Tuple", "Parameter", "Function"):
+        c = Contract(cls, "replace")
+        c.requires.append(lambda vw, cls=cls: z3.And(*tag_self(cls), InvNoA(Hp(vw.pre)), oth.e != NULL, oth.e != vw.self.e, z3.Not(isroot(oth.e))))
+        c.loops[0] = inv
+
+        def post(vw):
+            a, b, n = Hp(vw.pre), Hp(vw.post), vw.self.e
+            return [("every former parent now has `other` instead of this node", z3.ForAll([P], z3.Implies(a.parent[n][P], z3.And(z3.Not(b.child[P][n]), b.child[P][oth.e])))),
+                    ("this node keeps no parents", z3.ForAll([P], z3.Not(b.parent[n][P]))), ("every former parent was told", z3.ForAll([P], z3.Implies(a.parent[n][P], done(b, P)))),
+                    ("unrelated edges untouched", z3.ForAll([P, N], z3.Implies(z3.And(N != n, N != oth.e), b.child[P][N] == a.child[P][N]))), ("values untouched", same(a, b, "val", "frozen", "func", "evals"))] + struct_parts(b)
+        c.ensures.append(post)
+        if cls == "Function":     # Function.replace delegates to NodeBase.replace (verified above for Tuple/Parameter receivers): by contract
+            nb = mk(eng, NODE, "replace")
+            nb.requires.append(lambda vw: z3.And(InvNoA(Hp(vw.pre)), vw.args["other"].e != NULL, vw.args["other"].e != vw.self.e))
+            nb.modifies = [("_children", "refset", "", "all"), ("_parameters", "refset", "", "all"), ("_parents", "refset", "", "all"), ("_stale", "bool", "", "all")]
+            nb.ensures.append(lambda vw: [g for _, g in post(vw)])
+        eng.verify(cls, "replace", None, lambda e, st, me_: {"other": oth, "other_children": VBool(z3.BoolVal(True))}, contract=c)
+    return eng
+
+
+def u_function_edits(root):
+    eng = mk_engine(root)
+    c_mark_for_update(eng)
+    c_notify_parents(eng)
+    c_add_parent(eng)
+    newf = VFunH(z3.Const("function_handle", Fun))
+    structural(eng, "Function", "func", "setter", init=lambda e, st, me_: {"function_handle": newf},
+               post=lambda vw, a, b: [("function replaced", b.func == z3.Store(a.func, vw.self.e, newf.e)), ("node recomputed on next read", b.stale[vw.self.e]),
+                                      ("every parent is told", z3.ForAll([P], z3.Implies(a.parent[vw.self.e][P], done(b, P)))), ("values and edges untouched", same(a, b, "val", "child", "parent", "params", "frozen", "evals"))])
+    nd = node_arg("parameter")
+    mk(eng, NODE, "add_child", modifies=[("_children", "refset", ""), ("_parents", "refset", "", "all"), ("_stale", "bool", "", "all")],
+       ensures=[lambda vw: [Hp(vw.post).child == edge_add(Hp(vw.pre), vw.self.e, vw.args["node"].e), Hp(vw.post).parent == z3.Store(Hp(vw.pre).parent, vw.args["node"].e, z3.Store(Hp(vw.pre).parent[vw.args["node"].e], vw.self.e, z3.BoolVal(True))),
+                            mono_stale(Hp(vw.pre), Hp(vw.post)), done(Hp(vw.post), vw.self.e), InvNoSync(Hp(vw.post)), same(Hp(vw.pre), Hp(vw.post), "val", "frozen", "func", "params", "evals")]],
+       requires=[lambda vw: InvNoSync(Hp(vw.pre))])
+    structural(eng, "Function", "add_parameter", init=lambda e, st, me_: {"parameter": nd}, req=[lambda vw: z3.And(nd.e != NULL, nd.e != vw.self.e, z3.Not(isroot(nd.e)))],
+               post=lambda vw, a, b: [("parameter recorded and made a child", z3.And(b.params[vw.self.e][nd.e], b.child[vw.self.e][nd.e], b.parent[nd.e][vw.self.e])), ("receiver told", done(b, vw.self.e))])
+    return eng
+
+
+def u_tuple(root):
+    eng = mk_engine(root)
+    c_mark_for_update(eng)
+    c_add_parent(eng)
+    c_remove_parent(eng)
+    item = node_arg("item")
+    structural(eng, "Tuple", "__setitem__", init=lambda e, st, me_: {"index": VNum(z3.Int("index")), "item": item},
+               req=[lambda vw: z3.And(item.e != NULL, item.e != vw.self.e, z3.Not(isroot(item.e)), z3.Exists([x], Hp(vw.pre).child[vw.self.e][x]))],
+               post=lambda vw, a, b: [("the new element is a child with a back edge", z3.And(b.child[vw.self.e][item.e], b.parent[item.e][vw.self.e])), ("the tuple is told", done(b, vw.self.e)),
+                                      ("no other node's edges change", z3.ForAll([P], z3.Implies(P != vw.self.e, b.child[P] == a.child[P]))), ("values untouched", same(a, b, "val", "frozen", "func", "evals"))])
+    return eng
+
+
+def u_tuple_update(root):
+    eng = mk_engine(root)
+    c_value_getter(eng)
+    inline(eng, "Tuple", "nodes")
+    eng.to_val_hook = lambda e, v, st: VVal(defn(st.locals["self"].e, Hp(st).func[st.locals["self"].e], Hp(st).child[st.locals["self"].e], Hp(st).val))
+    c = Contract("Tuple", "update")
+    c.requires.append(lambda vw: z3.And(*tag_self("Tuple"), Inv(Hp(vw.pre)), z3.Not(Hp(vw.pre).frozen[vw.self.e]), Hp(vw.pre).stale[vw.self.e], Hp(vw.pre).params[vw.self.e] == EMPTY))
+
+    def inv(e, s):
+        a, b = Hp(s.locals["#centry0"]), Hp(s)
+        n, vis = s.locals["self"].e, s.locals["#cvis0"]
+        return z3.And(*[g for _, g in upd_rel(a, b, n, strict=True)], Inv(b), z3.ForAll([N], z3.Implies(vis.has(N), z3.And(a.child[n][N], fresh_(b, N)))))
+    c.loops[("comp", 0)] = inv
+    c.ensures.append(lambda vw: update_post(vw))
+    eng.verify("Tuple", "update", contract=c)
+    return eng
+
+
+def u_set_children(root):
+    eng = mk_engine(root)
+    c_mark_for_update(eng)
+    c_add_parent(eng)
+    eng.loop_havoc = [("_parents", "refset", "")]
+    kids = VSet(z3.Const("children", SetSort), "ValueNode")
+
+    def inv0(e, s):
+        a, b = Hp(s.locals["#entry0"]), Hp(s)
+        return z3.And(same(a, b, "parent", "child", "stale", "val", "frozen", "func", "params"), z3.ForAll([x], s.locals["_new_children"].has(x) == s.locals["#vis0"].has(x)), z3.ForAll([x], z3.Implies(s.locals["#vis0"].has(x), kids.has(x))))
+
+    def inv1(e, s):
+        a, b = Hp(s.locals["#entry1"]), Hp(s)
+        n, vis = s.locals["self"].e, s.locals["#vis1"]
+        return z3.And(same(a, b, "child", "stale", "val", "frozen", "func", "params"), z3.ForAll([x], z3.Implies(vis.has(x), kids.has(x))),
+                      z3.ForAll([N, P], b.parent[N][P] == z3.Or(a.parent[N][P], z3.And(P == n, vis.has(N)))))
+    for cls in ("Function", "Tuple"):
+        c = Contract(cls, "set_children")
+        c.requires.append(lambda vw, cls=cls: z3.And(*tag_self(cls), InvNoA(Hp(vw.pre)), Hp(vw.pre).child[vw.self.e] == EMPTY, z3.Not(kids.has(vw.self.e)), z3.ForAll([x], z3.Implies(kids.has(x), z3.Not(isroot(x)))),
+                                                     z3.ForAll([x], z3.Implies(Hp(vw.pre).params[vw.self.e][x], kids.has(x)))))
+        c.loops[0], c.loops[1] = inv0, inv1
+
+        def post(vw):
+            a, b, n = Hp(vw.pre), Hp(vw.post), vw.self.e
+            return [("children' = the given nodes", z3.ForAll([x], b.child[n][x] == kids.has(x))), ("every new child has a back edge", z3.ForAll([x], z3.Implies(kids.has(x), b.parent[x][n]))),
+                    ("other nodes' children untouched", z3.ForAll([P], z3.Implies(P != n, b.child[P] == a.child[P]))), ("receiver told", done(b, n)), ("values untouched", same(a, b, "val", "frozen", "func", "params", "evals"))] + struct_parts(b)
+        c.ensures.append(post)
+        eng.verify(cls, "set_children", None, lambda e, st, me_: {"children": kids}, contract=c)
+    return eng
+
 def units(root):
     return [Unit("mark_for_update", u_mark_for_update), Unit("notify_parents", u_notify_parents), Unit("freeze/unfreeze", u_freeze), Unit("value setter", u_value_setter),
-            Unit("update", u_update), Unit("value getter", u_value_getter)]
+            Unit("update", u_update), Unit("value getter", u_value_getter), Unit("add/remove child/parent", u_edges), Unit("replace_child", u_replace_child),
+            Unit("replace", u_replace), Unit("Function.func / add_parameter", u_function_edits), Unit("Tuple.__setitem__", u_tuple),
+            Unit("Tuple.update", u_tuple_update), Unit("set_children", u_set_children)]
